@@ -132,6 +132,27 @@ def metamorphic(ctx):
         A.append("scene %d %s ; xf %s ; fill %s %s" % (len(A), hdr, xt, p, o))
         B.append("scene %d %s ; xf %s ; tfill %s %s" % (len(B), hdr, xt, p, o))
         kinds.append("fill under T == fill of Path::transform(T) under the identity")
+    # the pen is transformed with the path: an axis-aligned segment with butt caps stroked under a non-uniform scale (powers
+    # of two, so that everything is exact) is the rectangle whose width across the segment is scaled by the OTHER axis' factor
+    for _ in range(60 if ctx.tier == "quick" else 600):
+        W, H = rng.randrange(8, 25), rng.randrange(8, 25)
+        hdr = "%d %d I %s" % (W, H, " ".join(["00000000"] * (W * H)))
+        sx, sy = rng.choice([(4.0, 1.0), (1.0, 4.0), (2.0, 0.5), (0.5, 2.0), (2.0, 1.0), (1.0, 2.0), (4.0, 0.5)])
+        wd = rng.choice([1.0, 2.0, 4.0])
+        if rng.random() < 0.5:      # vertical segment x = c, y0..y1 (user space)
+            c_, y0_, y1_ = rng.randrange(1, max(2, int(W / sx))) * 1.0, 1.0, max(2.0, float(int((H - 1) / sy)))
+            pth = ["M " + scene.fpt(c_, y0_), "L " + scene.fpt(c_, y1_)]
+            dx0, dx1, dy0, dy1 = (c_ - wd / 2) * sx, (c_ + wd / 2) * sx, y0_ * sy, y1_ * sy
+        else:                       # horizontal segment
+            c_, x0_, x1_ = rng.randrange(1, max(2, int(H / sy))) * 1.0, 1.0, max(2.0, float(int((W - 1) / sx)))
+            pth = ["M " + scene.fpt(x0_, c_), "L " + scene.fpt(x1_, c_)]
+            dx0, dx1, dy0, dy1 = x0_ * sx, x1_ * sx, (c_ - wd / 2) * sy, (c_ + wd / 2) * sy
+        rect = ["M " + scene.fpt(dx0, dy0), "L " + scene.fpt(dx1, dy0), "L " + scene.fpt(dx1, dy1), "L " + scene.fpt(dx0, dy1), "Z"]
+        sty = "STYLE %d butt %s %d 0 %d" % (FB(wd), rng.choice(["miter", "bevel", "round"]), FB(4.0), FB(0.0))
+        o = "solid ffffffff 3 %d 1" % FB(1.0)
+        A.append("scene %d %s ; xf %s ; stroke %s %s SRC %s" % (len(A), hdr, scene.xf_tokens((sx, 0.0, 0.0, sy, 0.0, 0.0)), scene.path_tokens(pth, 0), sty, o))
+        B.append("scene %d %s ; fill %s %s" % (len(B), hdr, scene.path_tokens(rect, 0), o))
+        kinds.append("a segment stroked under a non-uniform scale is the image of its user-space rectangle")
     for kind_, a_, b_ in core.corpus_pairs("C11"):      # pairs kept from earlier failures run too
         ta, tb = a_.split(" ", 2), b_.split(" ", 2)
         A.append("%s %d %s" % (ta[0], len(A), ta[2])); B.append("%s %d %s" % (tb[0], len(B), tb[2])); kinds.append(kind_)
